@@ -12,9 +12,41 @@ import (
 // different parts of the public API. Each walker is compared with the *model*, never with
 // another walker. All of them run under recover and with a step cap.
 
+// walkDsts are destination values handed to Iter.Root/Object/Array ("An optional destination can be given"). They are
+// kept across walks of a run, one per nesting depth, the way a caller that avoids allocations keeps them across documents.
+type walkDstCache struct {
+	objs  []*simdjson.Object
+	arrs  []*simdjson.Array
+	root  simdjson.Iter
+	reuse bool
+}
+
+var walkDsts = &walkDstCache{}
+
+func (d *walkDstCache) obj(depth int) *simdjson.Object {
+	if !d.reuse {
+		return nil
+	}
+	for len(d.objs) <= depth {
+		d.objs = append(d.objs, &simdjson.Object{})
+	}
+	return d.objs[depth]
+}
+
+func (d *walkDstCache) arr(depth int) *simdjson.Array {
+	if !d.reuse {
+		return nil
+	}
+	for len(d.arrs) <= depth {
+		d.arrs = append(d.arrs, &simdjson.Array{})
+	}
+	return d.arrs[depth]
+}
+
 type walkCtx struct {
 	steps int
 	cap   int
+	depth int
 	elems *simdjson.Elements // reused destination of Object.Parse (documented: "An optional destination can be given")
 }
 
@@ -86,9 +118,11 @@ func (w *walkCtx) advValue(it *simdjson.Iter, t simdjson.Type) (*MV, error) {
 	if err := w.tick(); err != nil {
 		return nil, err
 	}
+	w.depth++
+	defer func() { w.depth-- }()
 	switch t {
 	case simdjson.TypeArray:
-		arr, err := it.Array(nil)
+		arr, err := it.Array(walkDsts.arr(w.depth))
 		if err != nil {
 			return nil, err
 		}
@@ -107,7 +141,7 @@ func (w *walkCtx) advValue(it *simdjson.Iter, t simdjson.Type) (*MV, error) {
 		}
 		return m, nil
 	case simdjson.TypeObject:
-		obj, err := it.Object(nil)
+		obj, err := it.Object(walkDsts.obj(w.depth))
 		if err != nil {
 			return nil, err
 		}
@@ -152,7 +186,11 @@ func WalkAdvance(pj *simdjson.ParsedJson) (roots []*MV, err error) {
 			if t != simdjson.TypeRoot {
 				return fmt.Errorf("top level: expected root, got %v", t)
 			}
-			rt, inner, err := it.Root(nil)
+			var rdst *simdjson.Iter
+			if walkDsts.reuse {
+				rdst = &walkDsts.root
+			}
+			rt, inner, err := it.Root(rdst)
 			if err != nil {
 				return err
 			}
